@@ -20,7 +20,8 @@ STUBS = ["builtins.open / os.* / os.path.* (in-memory POSIX file system with unl
          "tempfile.gettempdir/mkstemp", "threading.Lock/RLock/Timer/Thread.start/join, multiprocessing.Process.start/join/Queue (tasks under the seeded baton scheduler)"]
 
 DEFAULT_KNOBS = {"bufsize": 8192, "hide_fileno": False, "compound": True,
-                 "blocklimit": 128, "compression": 3, "limitmb": 128}
+                 "blocklimit": 128, "compression": 3, "limitmb": 128,
+                 "inlinelimit": 1}
 
 
 def make_record(pid, seed, cfg, ops, **extra):
@@ -67,6 +68,7 @@ def execute_hist(record, make_hooks, trace=False):
             nontrivial = st.get("commits", 0) >= 1 and st.get("probes", 0) >= 1
             res = engine.result_ok(stats=st, digest=s.k.event_digest(), nontrivial=nontrivial,
                                    notes=hooks.get("notes"), sample=sample_of(record))
+            res["known_hits"] = dict(s.known_hits)
         except Violation as v:
             st = dict(s.stats)
             st.update(s.k.counters)
